@@ -9,11 +9,19 @@ namespace Icinga.C17
 /-- every registered configuration item belongs to a registered object -/
 def ItemsOwned (st : St) : Prop := ∀ k ∈ st.items, st.has k = true
 
-theorem foldl_preserves (P : St → Prop) (g : St → Key → St) (hg : ∀ s c, P s → P (g s c)) (cs : List Key) :
-    ∀ st : St, P st → P (cs.foldl g st) := by
+theorem deleteChildren_preserves (P : St → Prop) (rec : St → Obj → St × Bool) (hrec : ∀ s co, P s → P (rec s co).1) :
+    ∀ (cs : List Key) (s : St), P s → P (deleteChildren rec cs s).1 := by
+  intro cs
   induction cs with
-  | nil => intro st h; exact h
-  | cons c cs ih => intro st h; exact ih (g st c) (hg st c h)
+  | nil => intro s h; exact h
+  | cons c cs ih =>
+    intro s h
+    simp only [deleteChildren]
+    split
+    · split
+      · exact ih _ (hrec _ _ h)
+      · exact hrec _ _ h
+    · exact ih s h
 
 /-- whatever `removeObj` and `deactivateObj` preserve, the whole (cascading, possibly aborted) helper preserves -/
 theorem deleteHelper_preserves (P : St → Prop) (hr : ∀ s o, P s → P (removeObj s o))
@@ -28,7 +36,12 @@ theorem deleteHelper_preserves (P : St → Prop) (hr : ∀ s o, P s → P (remov
     · exact hr s o h
   intro f
   induction f with
-  | zero => intro st o c busy thr h; exact hfin st o thr h
+  | zero =>
+    intro st o c busy thr h
+    simp only [deleteHelper]
+    split
+    · exact h
+    · exact hfin st o thr h
   | succ f ih =>
     intro st o c busy thr h
     simp only [deleteHelper]
@@ -36,13 +49,11 @@ theorem deleteHelper_preserves (P : St → Prop) (hr : ∀ s o, P s → P (remov
     · exact h
     · split
       · exact h
-      · apply hfin
-        apply foldl_preserves P _ _ _ st h
-        intro s k hs
-        unfold deleteChild
+      · have hch := deleteChildren_preserves P (fun s co => deleteHelper f s co c (o.key :: busy) thr)
+          (fun s co hs => ih s co c _ thr hs) (children st o.key) st h
         split
-        · exact ih _ _ _ _ _ hs
-        · exact hs
+        · exact hfin _ o thr hch
+        · exact hch
 
 theorem deleteObject_preserves (P : St → Prop) (hr : ∀ s o, P s → P (removeObj s o))
     (hd : ∀ s o, P s → P (deactivateObj s o)) (st : St) (k : Key) (c : Bool) (thr : Option Key) (h : P st) :
